@@ -11,6 +11,7 @@ import (
 	"os"
 	"os/exec"
 	"path/filepath"
+	"regexp"
 	"sort"
 	"strings"
 	"time"
@@ -330,7 +331,7 @@ func main() {
 		fmt.Sprint(actLen) + " over 9 shell-active symbols, every single byte 1..255 alone and between letters; " +
 		"each quoted by the real shellSafeQuote and evaluated by /bin/sh (dash) and bash; " +
 		"whole job scripts rendered by the real RemoteJobManager.jobScript for each shipped template with the value as " +
-		"program path / argument / environment value / stdout path / work dir, executed by the shell with an argv/env dumping program. " +
+		"program path / argument / environment value / stdout path / work dir, executed by the shell with an argv/env dumping program; the script-level values include every __MRO_*__ placeholder token of every template (alone, inside an option, doubled), which must stay literal. " +
 		"distinct = distinct (value) strings; non-trivial = contains at least one non-alphanumeric byte"
 	for _, sh := range shells {
 		sh := sh
@@ -378,6 +379,25 @@ func main() {
 	scriptVals = append(scriptVals, "$(touch CANARY)", "`touch CANARY`", "\"; touch CANARY; \"",
 		"\\\"; touch CANARY; \\\"", "$a", "${a}", "$((1+1))", "a\\", "\\\n", "'$(touch CANARY)'",
 		"x\ntouch CANARY\n", "\n", "#", "~", "*")
+	// text that looks like a template placeholder must stay literal: every
+	// __MRO_*__ token of every shipped template, alone and inside a value
+	{
+		seen := map[string]bool{}
+		re := regexp.MustCompile(`__MRO_[A-Z_]+__`)
+		for _, t := range templates {
+			b, err := os.ReadFile(filepath.Join(os.Getenv("REPO"), "jobmanagers", t))
+			if err != nil {
+				continue
+			}
+			for _, tok := range re.FindAllString(string(b), -1) {
+				if !seen[tok] {
+					seen[tok] = true
+					scriptVals = append(scriptVals, tok, "--opt="+tok, tok+tok)
+				}
+			}
+		}
+		r.Set("placeholder_tokens", len(seen))
+	}
 	var cases []Case
 	for _, t := range templates {
 		for _, role := range []string{"arg", "env", "program", "stdout", "workdir"} {
